@@ -133,3 +133,9 @@ def check(cx):
 
     from . import c11
     cx.include(c11, {"C11.3"}, "C12.6", "shared with C11.3: fresh and recycled pages alike are marked dirty by allocate_page (otherwise a recycled page that is not written again is lost at eviction or checkpoint)", floor=4)
+
+    # ---- C12.7 (construct shared with C09.3) ---------------------------------------------------------------------
+    from . import c09
+    cx.include(c09, {"C09.3"}, "C12.7", "shared with C09.3: the cache capacity is configuration — written only by its setter and never "
+               "sized from a value widened from a narrower persisted field; a capacity that wraps to a handful of frames makes every "
+               "statement fail, i.e. the configured cache size changes results", floor=2)
